@@ -334,9 +334,10 @@ fn gen_bytes_of_len(rng: &mut StdRng, len: usize) -> Vec<u8> {
     }
 }
 
-/// byte field, length 0..=70
+/// byte field, length 0..=70 — and, for one field in forty, a large one (600..=3000 bytes): behaviour
+/// that depends on the total message size (fixed buffers, length limits) must show up too
 fn gen_bytes(rng: &mut StdRng) -> Vec<u8> {
-    let len = pick_len(rng, &BYTE_LENS, 70);
+    let len = if rng.gen_range(0..40) == 0 { rng.gen_range(600..=3000) } else { pick_len(rng, &BYTE_LENS, 70) };
     gen_bytes_of_len(rng, len)
 }
 
@@ -374,6 +375,15 @@ fn gen_string(rng: &mut StdRng) -> String {
         if c.len_utf8() <= rem {
             s.push(c);
         }
+    }
+    // edge: a trailing / leading NUL byte (NUL-padded asset codes are a classic place to "normalise")
+    if target >= 1 && rng.gen_range(0..8) == 0 {
+        if s.is_char_boundary(target - 1) {
+            s.truncate(target - 1);
+            s.push('\u{0}');
+        }
+    } else if target >= 1 && rng.gen_range(0..16) == 0 && s.is_char_boundary(1) {
+        s.replace_range(0..1, "\u{0}");
     }
     assert_eq!(s.len(), target);
     s
